@@ -212,7 +212,9 @@ def commit (rootHist : Hist) (s : Session) (rootFolderName stamp process : Strin
 /-- `write_hash_list` + `write_chain` for one history: the new manifest is added, the chain gets one more entry;
 nothing else in the folder changes -/
 def HistStore.add (s : HistStore) (w : Written) : HistStore :=
-  { s with gens := s.gens ++ [w.gen], chain := s.chain ++ [⟨w.number, w.gen.fileName⟩], chainPresent := true }
+  -- `os.replace` onto the manifest's name: a stale file of the same name (an unlisted leftover) is overwritten
+  { s with gens := (s.gens.filter fun g => g.fileName != w.gen.fileName) ++ [w.gen],
+           chain := s.chain ++ [⟨w.number, w.gen.fileName⟩], chainPresent := true }
 
 mutual
 /-- replace the node at path `p` (below `t`) by `f` of it -/
